@@ -11,8 +11,9 @@ git diff > "$O/patch.confirmed.diff"
 echo "== existing tests WITH change (lib + transact + deploy_call + server_client)" >> "$LOG"
 cargo test --offline --lib 2>&1 | grep -E "^test result|FAILED|failed" | head -5 >> "$LOG"
 for t in transact deploy_call server_client; do cargo test --offline --test $t 2>&1 | grep -E "^test result|FAILED" | head -3 >> "$LOG"; done
-DEMO=$(ls tests/seed_demo*.rs 2>/dev/null | head -1)
-if [ -n "$DEMO" ]; then
+DEMOS=$(ls tests/seed_demo${DEMO_SUFFIX:-}*.rs 2>/dev/null)
+[ -z "$DEMOS" ] && echo "== no tests/seed_demo*.rs in worktree (demo needs manual placement)" >> "$LOG"
+for DEMO in $DEMOS; do
   T=$(basename "$DEMO" .rs)
   echo "== demo $T WITH change" >> "$LOG"
   cargo test --offline --test "$T" 2>&1 | grep -E "^test |^test result|panicked" | head -12 >> "$LOG"
@@ -20,7 +21,5 @@ if [ -n "$DEMO" ]; then
   git stash -q
   cargo test --offline --test "$T" 2>&1 | grep -E "^test |^test result|panicked" | head -12 >> "$LOG"
   git stash pop -q
-else
-  echo "== no tests/seed_demo*.rs in worktree (demo needs manual placement)" >> "$LOG"
-fi
+done
 cat "$LOG"
